@@ -11,14 +11,16 @@ def instances(tier):
         out.append((L, 'VH_C12_decodeLength_total', [k], {}))
     for (ql, al) in ([(0, 1), (5, 3)] if tier == 'quick' else [(0, 0), (0, 1), (1, 1), (5, 3), (16, 40)]):
         out.append((L, 'VH_C12_request', [ql, al], {'weight': 30}))
+    for far in (0, 1):
+        out.append((L, 'VH_C12_request_timeout', [3, far], {'weight': 10}))
     return out
 
 
 CHECK = dict(
     id='C12', pkgs=['liteclient'], init_pkgs=['std:io'], instances=instances, opts={'budget_s': 1200},
-    level_text='The mutex-protected registry step of the reader (registerCallback, processQueryAnswer, decodeLength/encodeLength) is executed symbolically from a registry with up to 3 pending queries with arbitrary distinct ids and an arbitrary packet payload: the answer reaches exactly the channel registered under payload[4:36] with exactly the TL bytes content, the entry is removed, duplicates and unknown ids deliver nothing, no channel send can block, nothing panics, the registry invariant is re-established (induction over histories).  Client.Request as a whole (sequential schedule in which the server answers inside the socket write, before Request reaches its select): with another query pending, the frame goes to the round-robin connection and carries adnl.message.query (magic | fresh id | length | query, padded); after the server answers the OTHER query and then this one through the real processQueryAnswer, Request returns exactly its own answer, the other waiter has the other answer, the own id is unregistered and the round-robin index has advanced.',
-    level_note='ONLY sequential schedules are decided (select is explored case by case, contexts fire only on cancel). Goroutine interleavings, data races, deadlines/timeouts, reconnection and goroutine counts are outside what bounded symbolic execution of sequential SSA can express; those clauses of C12 are not claimed.',
+    level_text='The mutex-protected registry step of the reader (registerCallback, processQueryAnswer, decodeLength/encodeLength) is executed symbolically from a registry with up to 3 pending queries with arbitrary distinct ids and an arbitrary packet payload: the answer reaches exactly the channel registered under payload[4:36] with exactly the TL bytes content, the entry is removed, duplicates and unknown ids deliver nothing, no channel send can block, nothing panics, the registry invariant is re-established (induction over histories).  Client.Request as a whole (sequential schedule in which the server answers inside the socket write, before Request reaches its select): with another query pending, the frame goes to the round-robin connection and carries adnl.message.query (magic | fresh id | length | query, padded); after the server answers the OTHER query and then this one through the real processQueryAnswer, Request returns exactly its own answer, the other waiter has the other answer, the own id is unregistered and the round-robin index has advanced.  Timeout clause (VH_C12_request_timeout): with a server that never answers, Request returns an error at the CLIENT deadline - also when the caller\'s context carries its own, later deadline (the caller\'s context is still alive on return) - having sent exactly one frame and unregistered its id; time is modelled as passing only while the select has no ready case, up to the earliest deadline among the contexts selected on.',
+    level_note='ONLY sequential schedules are decided (select is explored case by case; a context fires on cancel, or - when a blocking select has nothing ready - at the earliest deadline selected on). Goroutine interleavings, data races, timers other than context deadlines (time.After, the reader\'s silence timeout), reconnection and goroutine counts are outside what bounded symbolic execution of sequential SSA can express; those clauses of C12 are not claimed.',
     bounds={'pending queries': '0..2 quick / 0..3 thorough', 'payload bytes': 'see instances', 'TL length': 'all n < 2^24'},
     lifted_by='induction on the history of register/answer/unregister steps over the invariant "every registered channel is empty and registered once"',
-    outside_claim=['goroutine schedules and data races', 'timeout by the deadline (context/timer)', 'automatic reconnect', 'bounded goroutine count', 'Request() under other schedules (answer after the select started, timeout path: context deadlines are never reached in the model)'],
+    outside_claim=['goroutine schedules and data races', 'timeouts driven by timers other than the per-call context deadline (time.After in the reader, ping/reconnect timers)', 'automatic reconnect', 'bounded goroutine count', 'Request() under schedules in which the answer arrives after the select started (needs a concurrent reader goroutine)'],
 )
